@@ -29,7 +29,7 @@ out_root = '/verif/seeded'
 rows = []
 for (batch, mid), e in sorted(entries.items(), key=lambda kv: kv[0][1]):
     src = os.path.join(root, batch, mid)
-    new_id = 'R%s_%s' % (rnd, mid)
+    new_id = 'R%s%s_%s' % (rnd, batch[-1] if os.environ.get('STORE_BATCH_IN_ID') else '', mid)
     dst = os.path.join(out_root, new_id)
     os.makedirs(dst, exist_ok=True)
     for f in ('patch.diff', 'demo.py'):
